@@ -251,6 +251,41 @@ class Tracer:
         raise KeyError(k)
 
 
+class Dyn:
+    """every attribute exists, served by __getattr__: private names carry the sentinel"""
+    def __getattr__(self, n):
+        if n.startswith("nosuch"):
+            raise AttributeError(n)
+        return (SENT + "d" if n.startswith("_") else "DYN:") + n
+
+    def __repr__(self):
+        return "<Dyn>"
+
+
+class DynAll:
+    """__getattribute__ override: the same for every lookup the sandbox makes"""
+    def __getattribute__(self, n):
+        if n in ("__class__", "__repr__", "__dict__"):
+            return object.__getattribute__(self, n)
+        if n.startswith("nosuch"):
+            raise AttributeError(n)
+        return (SENT + "a" if n.startswith("_") else "DYNALL:") + n
+
+    def __repr__(self):
+        return "<DynAll>"
+
+
+class Raising:
+    """the attribute protocol raises something that is not AttributeError"""
+    def __getattr__(self, n):
+        if n.startswith("nosuch"):
+            raise AttributeError(n)
+        raise RuntimeError("attribute protocol failure")
+
+    def __repr__(self):
+        return "<Raising>"
+
+
 def tracer_function():
     def fn():
         return "F"
@@ -266,20 +301,43 @@ def tracer_data():
     o = Tracer()
     data = {"o": o, "d": {"o": Tracer(), "_k": "dictitem"}, "lst": [Tracer()], "f": tracer_function(), "T": Tracer,
             "g": g, "bm": o.meth}
+
+    async def coro():
+        return SENT + "co"
+
+    async def agen():
+        yield SENT + "ag"
+    try:
+        raise ValueError(SENT + "tb")
+    except ValueError:
+        tb = sys.exc_info()[2]
+    cr, ag = coro(), agen()
+    data.update({"dyn": Dyn(), "dynall": DynAll(), "rz": Raising(), "fr": sys._getframe(), "co": tracer_function().__code__,
+                 "tb": tb, "cr": cr, "ag": ag, "tup": (Tracer(),)})
+    gclose = g.close
+
+    def close_all():
+        gclose()
+        cr.close()
     # bound str.format / format_map / Markup.format methods supplied by the HOST (not obtained by the
     # template through attribute access): as direct values and inside containers
     from markupsafe import Markup
     hf = "{0._secret}|{0.pub}".format
     data.update({"hf": hf, "hd": {"f": hf}, "hl": [hf], "hm": "{x._secret}|{x.pub}".format_map,
                  "hmk": Markup("{0._secret}|{0.pub}").format, "ht": (hf,)})
+    data["mk"] = {n: Markup(n) for n in PRIVATE_NAMES + PUBLIC_NAMES + ["nosuchattr_zz"]}       # Markup (a str subclass) as the key
     # subscript keys that are str subclasses: content "safe", str() = the attribute name under test
     data["sk"] = {n: StrSub("safe", n) for n in PRIVATE_NAMES + PUBLIC_NAMES + ["nosuchattr_zz"]}
-    return data, g.close
+    return data, close_all
 
 
+# internal names of the C-level objects (frame / code / traceback / coroutine / async generator attributes)
+INTERNAL_EXTRA = ["f_globals", "f_locals", "f_code", "f_back", "co_consts", "co_names", "tb_frame", "tb_next", "cr_frame", "cr_code",
+                  "ag_frame", "ag_code", "cr_await", "gi_yieldfrom"]
 PRIVATE_NAMES = ["_secret", "__dunder", "__dunder__", "_fmt", "_fmtmap", "_prop", "_pmeth", "_csecret", "__class__", "__dict__",
                  "__init__", "__globals__", "__code__", "__func__", "__self__", "__subclasses__", "mro", "__mro__",
                  "__base__", "gi_frame", "gi_code", "__module__", "__wrapped__", "__getitem__"]
+PRIVATE_NAMES += INTERNAL_EXTRA + ["_length", "_after", "_current", "_iterator", "_undefined"]      # LoopContext internals
 PUBLIC_NAMES = ["pub", "n", "meth", "child", "itemkey"]
 
 # (base expression, python accessor of the same object in the data)
@@ -287,6 +345,8 @@ BASES = [
     ("o", lambda d: d["o"]), ("d.o", lambda d: d["d"]["o"]), ("lst[0]", lambda d: d["lst"][0]),
     ("f", lambda d: d["f"]), ("T", lambda d: d["T"]), ("g", lambda d: d["g"]), ("bm", lambda d: d["bm"]),
     ("o.child", lambda d: d["o"].child),
+    ("dyn", lambda d: d["dyn"]), ("dynall", lambda d: d["dynall"]), ("rz", lambda d: d["rz"]), ("fr", lambda d: d["fr"]),
+    ("co", lambda d: d["co"]), ("tb", lambda d: d["tb"]), ("cr", lambda d: d["cr"]), ("ag", lambda d: d["ag"]), ("tup[0]", lambda d: d["tup"][0]),
 ]
 
 # access paths: %(b)s base expression, %(n)s attribute name
@@ -295,6 +355,36 @@ ACCESS = {
     "subscript": "{{ (%(b)s)['%(n)s'] }}",
     "subscript-var": "{%% set k = '%(n)s' %%}{{ (%(b)s)[k] }}",
     "subscript-strsubclass": "{{ (%(b)s)[sk['%(n)s']] }}",
+    "subscript-markup-key": "{{ (%(b)s)[mk['%(n)s']] }}",
+    # comma-separated (multi) attributes, integer parts, dotted paths in the other attribute-taking filters
+    "sort-multi": "{{ [%(b)s, %(b)s]|sort(attribute='pub,%(n)s')|length }}",
+    "sort-multi-first": "{{ [%(b)s, %(b)s]|sort(attribute='%(n)s,pub')|length }}",
+    "min-multi-unsupported": "{{ ([%(b)s]|min(attribute='%(n)s.x')) is defined }}",
+    "index-dotted": "{{ [[%(b)s]]|map(attribute='0.%(n)s')|list }}",
+    "selectattr-dotted": "{{ [{'w': %(b)s}]|selectattr('w.%(n)s')|list|length }}",
+    "groupby-dotted": "{{ [{'w': %(b)s}]|groupby('w.%(n)s')|list|length }}",
+    "unique-dotted": "{{ [{'w': %(b)s}]|unique(attribute='w.%(n)s')|list|length }}",
+    "sum-dotted": "{{ [{'w': %(b)s}]|sum(attribute='w.%(n)s', start='') }}",
+    "map-attribute-tuple": "{{ (%(b)s,)|map(attribute='%(n)s')|list }}",
+    "map-attribute-default": "{{ [%(b)s]|map(attribute='%(n)s', default='DFLT')|list }}",
+    "groupby-default": "{{ [%(b)s]|groupby('%(n)s', default='DFLT')|map('first')|list }}",
+    # loops / filters over an attribute that is a container (o.__dict__, T.__mro__, f.__globals__)
+    "loop-over": "{%% for k in (%(b)s).%(n)s %%}{{ k }};{%% endfor %%}",
+    "list-of": "{{ (%(b)s).%(n)s|list }}",
+    "items-of": "{{ (%(b)s).%(n)s|items|list }}",
+    "dictsort-of": "{{ (%(b)s).%(n)s|dictsort }}",
+    "length-of": "{{ (%(b)s).%(n)s|length }}",
+    "loop-attr-filter": "{%% for k in (%(b)s)|attr('%(n)s') %%}{{ k }};{%% endfor %%}",
+    # engine-special names bound to data: macro / call-block parameters named loop, and the real loop variable
+    "macro-param-named-loop": "{%% macro show(loop) %%}{{ loop.%(n)s }}{%% endmacro %%}{{ show(%(b)s) }}",
+    "callblock-param-named-loop": "{%% macro w(x) %%}{{ caller(x) }}{%% endmacro %%}{%% call(loop) w(%(b)s) %%}{{ loop.%(n)s }}{%% endcall %%}",
+    "macro-kwargs-special": "{%% macro show() %%}{{ kwargs.o.%(n)s }}{%% endmacro %%}{{ show(o=%(b)s) }}",
+    "macro-varargs-special": "{%% macro show() %%}{{ varargs[0].%(n)s }}{%% endmacro %%}{{ show(%(b)s) }}",
+    "real-loop-variable": "{%% for x in [%(b)s] %%}{{ loop.%(n)s }}{%% endfor %%}",
+    "set-named-loop": "{%% set loop = %(b)s %%}{{ loop.%(n)s }}",
+    # extensions
+    "trans-variable": "{%% trans v=(%(b)s).%(n)s %%}{{ v }}{%% endtrans %%}",
+    "do-then-print": "{%% do (%(b)s).%(n)s %%}{%% set v = (%(b)s).%(n)s %%}{{ v }}",
     "map-strsubclass": "{{ [%(b)s]|map(attribute=sk['%(n)s'])|list }}",
     "attr-filter": "{{ (%(b)s)|attr('%(n)s') }}",
     "call": "{{ ((%(b)s).%(n)s)() }}",
